@@ -151,6 +151,10 @@ class SimLoop(asyncio.BaseEventLoop):
                                    finalizer=self._asyncgen_finalizer_hook)
             events._set_running_loop(self)
             while True:
+                if self.on_iteration is not None:
+                    # sweeps place actions at exact iteration numbers; fire them even when the loop
+                    # would otherwise be idle at that point
+                    self.on_iteration(self)
                 if stop_when is not None and stop_when():
                     return 'stop'
                 if not self._ready:
@@ -168,8 +172,6 @@ class SimLoop(asyncio.BaseEventLoop):
                     return 'time'
                 if self.iters >= self.max_iters:
                     raise SimCap('iteration cap %d hit at t=%r' % (self.max_iters, self._now))
-                if self.on_iteration is not None:
-                    self.on_iteration(self)
                 self._run_once()
         finally:
             self._thread_id = None
